@@ -492,6 +492,10 @@ package zygo
 //@ ghost captured := true @after call captureControlState[0]
 //@ ghost st := ret0 @after call captureControlState[0]
 //@ C05 ensures restored-after-capture: captured ==> ctlIs(env, st)
+// the function object that evaluates an argument form belongs to this evaluation alone: it is
+// made here and its parent is the function that was running, so that names resolve through
+// the current activation (a shared or cached object would carry another activation's chain)
+//@ C03 assert evaluator-belongs-to-this-evaluation @before call CallFunction[0]: arg0 == env && fresh(arg1) && arg1.parent == st.curfunc
 
 // a delayed argument remembers the caller's lexical environment (a private copy of the
 // scope stack and the function that was running), and forcing evaluates in exactly that
@@ -500,7 +504,7 @@ package zygo
 //@ requires typeinv[Stack] env != nil ==> wfs(env.linearstack)
 //@ C16 ensures captures-caller: r0.Expr == expr && !r0.Forced && (env != nil ==> r0.CurFunc == old(env.curfunc) && fresh(r0.Stack) && r0.Stack.tos == old(env.linearstack.tos))
 //@ func (*SexpLazyArg).Force
-//@ C16 assert thunk-runs-in-captured-env @before call CallFunction[0]: arg1.parent == lazy.CurFunc && (lazy.Stack != nil ==> fresh(env.linearstack) && env.linearstack.tos == lazy.Stack.tos)
+//@ C03,C16 assert thunk-runs-in-captured-env @before call CallFunction[0]: fresh(arg1) && arg1.parent == lazy.CurFunc && (lazy.Stack != nil ==> fresh(env.linearstack) && env.linearstack.tos == lazy.Stack.tos)
 //@ ghost captured := false @entry
 //@ ghost captured := true @after call captureControlState[0]
 //@ ghost st := ret0 @after call captureControlState[0]
@@ -767,7 +771,7 @@ package zygo
 //@ requires typeinv[Stack] env != nil ==> wfs(env.linearstack)
 //@ C16 ensures captures-caller: r0.Expr == expr && !r0.Forced && (env != nil ==> r0.CurFunc == old(env.curfunc) && fresh(r0.Stack) && r0.Stack.tos == old(env.linearstack.tos))
 //@ func (*SexpLazyArg).Force
-//@ C16 assert thunk-runs-in-captured-env @before call CallFunction[0]: arg1.parent == lazy.CurFunc && (lazy.Stack != nil ==> fresh(env.linearstack) && env.linearstack.tos == lazy.Stack.tos)
+//@ C03,C16 assert thunk-runs-in-captured-env @before call CallFunction[0]: fresh(arg1) && arg1.parent == lazy.CurFunc && (lazy.Stack != nil ==> fresh(env.linearstack) && env.linearstack.tos == lazy.Stack.tos)
 //@ C16 ensures memo-hit: old(lazy != nil && lazy.Forced) ==> r1 == nil && r0 == old(lazy.Value) && lazy.Forced && lazy.Value == old(lazy.Value)
 //@ C16 ensures memoises: r1 == nil && lazy != nil ==> lazy.Forced && lazy.Value == r0
 
